@@ -217,12 +217,11 @@ def main(ctx):
     K = max(len(f["kinds"]) for f in fams)
     hp = os.path.join(ctx.scratch, "hist.ndjson")
     if ctx.quick:
-        # instance types: all histories of length 3; the pooled functions (which delegate to the same
-        # instance code) all histories of length 2; everything: deep simulated histories
-        hs = gen_histories(ctx, K, 3, "inst") + gen_histories(ctx, K, 2, "pool") + sim_histories(ctx, K, 300, 10)
+        # every family: all PAIRS over its whole menu; instance types: all TRIPLES over the first 20 kinds of the menu
+        # (the menus list the state-touching kinds first); everything: deep simulated histories over the whole menus
+        hs = gen_histories(ctx, K, 2) + gen_histories(ctx, 20, 3, "inst") + sim_histories(ctx, K, 400, 10)
     else:
-        # all histories of length 3 over the whole menus, of length 4 over the first 16 kinds of every menu
-        # (the menus list the state-touching kinds first), deep simulated histories
+        # all triples over the whole menus, all quadruples over the first 16 kinds of every menu, deep simulated histories
         hs = gen_histories(ctx, K, 3) + gen_histories(ctx, 16, 4) + sim_histories(ctx, K, 3000, 12)
     verif.write_ndjson(hp, hs)
     recs = judge(ctx, hp, fams, tag="m")
@@ -230,13 +229,13 @@ def main(ctx):
         ctx.add(r["api"], r["kind"], r["locus"], r["witness"], case=r["case"], detail=r.get("detail"))
     ctx.cov["distinct_nontrivial"] = ctx.cov.get("kind_pairs_exercised", 0)
     ctx.cov["families"] = {f["name"]: len(f["kinds"]) for f in fams}
-    ctx.cov["rule"] = ("every history of call kinds of length %d over each family's whole menu (TLC-enumerated), %s"
-                       "plus TLC -simulate histories of depth %d; each replayed on one reused instance per family "
-                       "(13 families: 9 instance types, 4 pools under GOMAXPROCS(1)); every call result compared by TLC with "
-                       "the fresh-instance result, every returned value re-inspected after input scribbling and after "
-                       "every later call. distinct_nontrivial = distinct (family, kind -> next kind) transitions executed."
-                       % (3, "(quick: length 2 for the 4 pooled families) " if ctx.quick else "length 4 over the first 16 kinds, ",
-                          10 if ctx.quick else 12))
+    ctx.cov["rule"] = ("TLC-enumerated call histories over each family's menu (13 families: 9 instance types, 4 pools under "
+                       "GOMAXPROCS(1)): %s plus TLC -simulate histories of depth %d over the whole menus; each replayed on one "
+                       "reused instance per family; every call result (value, error class, line:column) compared by TLC with the "
+                       "fresh-instance result, every returned value re-inspected after input scribbling and after every later "
+                       "call. distinct_nontrivial = distinct (family, kind -> next kind) transitions executed."
+                       % ("all pairs over the whole menus, all triples over the first 20 kinds (instance types)," if ctx.quick else
+                          "all triples over the whole menus, all quadruples over the first 16 kinds,", 10 if ctx.quick else 12))
     for f in fams[:3]:
         ctx.sample({"family": f["name"], "history": [k["name"] for k in f["kinds"][:3]]})
     ctx.assumptions += [
